@@ -646,6 +646,15 @@ func init() {
 		tag := fmt.Sprint(ex.typeTag("T:hash.Hash-impl"))
 		return Val{T: c.results().At(0).Type(), L: []string{ite(ok, tag, "0"), ite(ok, ref, "0")}}
 	}
+	// Hash.Digest(data): one-shot digest; the exact input is visible to "callsite Hash.Digest" clauses (arg1)
+	s["(github.com/mycoria/crop.Hash).Digest"] = func(ex *Exec, fr *Frame, st *State, c *callCtx) Val {
+		ex.cryptoEvent(fr, st, "Hash.Digest", c)
+		base := ex.newRef(st, "digest")
+		ex.havocMemBase(st, types.Typ[types.Uint8], base)
+		ln := ex.fresh("digestlen", bv64)
+		ex.assume("true", and(app("bvsge", ln, bvLit(0, 64)), app("bvult", ln, "#x0000000000010000")))
+		return Val{T: c.results().At(0).Type(), L: []string{base, bvLit(0, 64), ln, ln}}
+	}
 	s["hash.Hash.Write"] = func(ex *Exec, fr *Frame, st *State, c *callCtx) Val {
 		ex.cryptoEvent(fr, st, "hash.Write", c)
 		return tup(intVal(c.args[0].L[2]), nilErr())
